@@ -666,7 +666,10 @@ where
                     symbol = symbol - step;
                 } else {
                     // We're still in the downward search phase with exponentially increasing step size.
-                    if step << 1 != Symbol::zero() {
+                    // Double `step` unless this would overflow. (Comparing `step << 1` to
+                    // zero is not enough for signed `Symbol` types, where the doubling would
+                    // first reach the negative value `Symbol::min_value()`.)
+                    if step <= (Symbol::max_value() >> 1) {
                         step = step << 1;
                     }
 
@@ -748,7 +751,10 @@ where
                     symbol = symbol + step;
                 } else {
                     // We're still in the upward search phase with exponentially increasing step size.
-                    if step << 1 != Symbol::zero() {
+                    // Double `step` unless this would overflow. (Comparing `step << 1` to
+                    // zero is not enough for signed `Symbol` types, where the doubling would
+                    // first reach the negative value `Symbol::min_value()`.)
+                    if step <= (Symbol::max_value() >> 1) {
                         step = step << 1;
                     }
 
